@@ -32,6 +32,11 @@ MOD = types.SimpleNamespace(TITLE="synthetic functions (translator self-test)", 
     {"path": SRC, "qualname": "K.f2", "spec": {"name": "f2", "inputs": [["data", "data", "bytes"], ["k", "k", "nat"]]},
      "gen": lambda rng: {"data": _b(rng, rng.randrange(3, 20)), "k": rng.randrange(1, 7)},
      "live": "def live(a):\n    return MOD.K.f2(None, a['data'], a['k'])\n"},
+    {"path": SRC, "qualname": "K.f3",
+     "spec": {"name": "f3", "inputs": [["data", "data", "bytes"], ["key", "key", "bytes"], ["m", "m", "nat"], ["v", "v", "N"]]},
+     "gen": lambda rng: (lambda n: {"data": _b(rng, n), "key": _b(rng, n + rng.randrange(0, 3)), "m": rng.randrange(0, 7),
+                                    "v": rng.choice([0, 1, 255, 65536, 2 ** 32 - 1, rng.randrange(0, 2 ** 32)])})(rng.randrange(2, 12)),
+     "live": "def live(a):\n    return MOD.K.f3(None, a['data'], a['key'], a['m'], a['v'])\n"},
 ])
 
 
